@@ -8,6 +8,7 @@
 //! Exit codes: 0 property held on everything explored, 1 violation (VIOLATION line), 2 harness error.
 
 mod cases;
+mod cmp;
 mod core;
 mod dsp;
 mod findings;
@@ -76,12 +77,25 @@ pub fn run_case_seeded(case: &Case, hash_seed: u64, timeout: Duration) -> Option
 /// thread gets the run's hash seed): whatever the library parallelises internally then splits and steals
 /// according to that pool size. `None` = plain thread (library code that uses rayon falls into the global pool).
 pub fn run_case_in(case: &Case, hash_seed: u64, pool: Option<usize>, timeout: Duration) -> Option<Ctx> {
+    run_case_after(case, None, hash_seed, pool, timeout)
+}
+
+/// same, with another case executed first ON THE SAME THREAD (and in the same process): whatever that
+/// leaves behind in thread-locals, statics or caches must not change what `case` then computes
+pub fn run_case_after(case: &Case, before: Option<&Case>, hash_seed: u64, pool: Option<usize>, timeout: Duration) -> Option<Ctx> {
     let (tx, rx) = std::sync::mpsc::channel();
     let case2 = case.clone();
+    let before2 = before.cloned();
     let h = std::thread::Builder::new()
         .stack_size(32 << 20)
         .spawn(move || {
             hashseed::set_thread_seed(hash_seed);
+            if let Some(mut b) = before2 {
+                cases::rehash(&mut b);
+                let mut throwaway = Ctx::default();
+                let _ = catch_unwind(AssertUnwindSafe(|| cases::execute(&b, &mut throwaway)));
+                let _ = LAST_PANIC.with(|p| p.borrow_mut().take());
+            }
             let mut case2 = case2;
             cases::rehash(&mut case2);
             let mut ctx = Ctx::default();
